@@ -7,6 +7,10 @@ stylesheets  S1 plain                                   S2 nested scopes, xsl:me
              S5 top-level variable (result-tree fragment, lazily evaluated, referenced through a second top-level
                 variable) whose evaluation is aborted by xsl:message terminate when $p = 'stop'
              S6 top-level variable whose select uses $p as a node-set: run-time XPath error whenever p is set
+             SD1 / SD2 value-keyed caches that outlive a call (the transformer's ICU number formatter caches DecimalFormat
+                objects by the VALUE of the decimal-format symbols, its collation functor caches collators by locale):
+                named decimal-formats d0..d9 where SD2's dK differs from SD1's dK in exactly the K-th symbol, and a
+                default decimal-format; every symbol is made visible by format-number calls
              SE unknown output encoding                 SU character the output encoding cannot represent (text)
              SM document() of a missing file            SX not well-formed         SV well-formed, not valid XSLT
 sources      D1, D2 (different sizes and key values), DX not well-formed
@@ -130,6 +134,65 @@ S6 = """<?xml version="1.0"?>
 </xsl:stylesheet>
 """ % XSL
 
+# ---- SD1 / SD2 ---------------------------------------------------------------------------------------------------
+# dK = the base symbols with the K-th symbol replaced by variant A (SD1) or B (SD2), so SD1.dK and SD2.dK differ in
+# exactly one symbol and all formats of one stylesheet are distinct (10 = the size of Xalan's formatter cache; the
+# default decimal-format has the symbols of d9, so it shares d9's cache entry and nothing is evicted within a run).
+# A formatter cached under an equality that ignores symbol K is found by SD2.dK after SD1 ran (and vice versa) and
+# prints SD1's symbol.  digit and pattern-separator are picture-only characters: the picture is translated with the
+# format's own symbols before the cached formatter is used, so they can not show in the output by construction.
+DF_SYMBOLS = ["decimal-separator", "grouping-separator", "infinity", "minus-sign", "NaN", "percent", "per-mille",
+              "zero-digit", "digit", "pattern-separator"]
+DF_BASE = {"decimal-separator": ".", "grouping-separator": ",", "infinity": "Infinity", "minus-sign": "-", "NaN": "NaN",
+           "percent": "%", "per-mille": "‰", "zero-digit": "0", "digit": "#", "pattern-separator": ";"}
+DF_VARIANTS = {"decimal-separator": (":", "!"), "grouping-separator": ("_", "~"), "infinity": ("INF", "oo"),
+               "minus-sign": ("^", "="), "NaN": ("n/a", "missing"), "percent": ("@", "?"), "per-mille": ("*", "+"),
+               "zero-digit": ("٠", "०"), "digit": ("X", "x"), "pattern-separator": ("/", "|")}
+
+
+def _xml(s):
+    return s.replace("&", "&amp;").replace("<", "&lt;").replace('"', "&quot;")
+
+
+def _decimal_format_sheet(which, collation):
+    decls, calls = [], []
+    for k, sym in enumerate(DF_SYMBOLS):
+        f = dict(DF_BASE); f[sym] = DF_VARIANTS[sym][which]
+        attrs = " ".join('%s="%s"' % (a, _xml(f[a])) for a in DF_SYMBOLS)
+        decls.append('<xsl:decimal-format name="d%d" %s/>' % (k, attrs))
+        if k == 9:
+            decls.append('<xsl:decimal-format %s/>' % attrs)
+        D, G, Z, H, P = f["decimal-separator"], f["grouping-separator"], f["zero-digit"], f["digit"], f["pattern-separator"]
+        pics = [("1234567.891", H + G + H + H + Z + D + Z + Z),                    # grouped decimal
+                ("-42.5", H + G + H + H + Z + D + Z),                             # negative, default minus
+                ("number('x')", H + Z + D + Z),                                   # NaN
+                ("1 div 0", H + Z + D + Z), ("-1 div 0", H + Z + D + Z),           # infinity
+                ("0.256", H + Z + D + Z + f["percent"]),                          # percentage
+                ("0.256", H + Z + f["per-mille"]),                                # per-mille
+                ("-7.5", H + Z + D + Z + P + "(" + H + Z + D + Z + ")")]          # negative sub-pattern
+        one = "".join('<v><xsl:value-of select="format-number(%s, \'%s\', \'d%d\')"/></v>' % (n, _xml(pic), k) for n, pic in pics)
+        calls.append('<f n="d%d">%s</f>' % (k, one))
+        if k == 9:
+            calls.append('<f n="default">%s</f>' % "".join(
+                '<v><xsl:value-of select="format-number(%s, \'%s\')"/></v>' % (n, _xml(pic)) for n, pic in pics))
+    return """<?xml version="1.0" encoding="UTF-8"?>
+<xsl:stylesheet version="1.0" %s>
+<xsl:output method="xml" omit-xml-declaration="yes" encoding="UTF-8"/>
+%s
+<xsl:variable name="words"><w>b</w><w>B</w><w>a</w><w>A</w><w>ä</w><w>z</w></xsl:variable>
+<xsl:template match="/">
+<fmt items="{count(doc/item)}">
+%s
+<s><xsl:for-each select="document('')/*/xsl:variable[@name='words']/w"><xsl:sort select="." %s/><xsl:value-of select="."/></xsl:for-each></s>
+</fmt>
+</xsl:template>
+</xsl:stylesheet>
+""" % (XSL, "\n".join(decls), "\n".join(calls), collation)
+
+
+SD1 = _decimal_format_sheet(0, 'lang="en" case-order="upper-first"')
+SD2 = _decimal_format_sheet(1, 'lang="en" case-order="lower-first"')
+
 SE = """<?xml version="1.0"?>
 <xsl:stylesheet version="1.0" %s>
 <xsl:output method="xml" encoding="x-no-such-encoding"/>
@@ -174,7 +237,7 @@ DX = """<?xml version="1.0"?>
 """
 
 POOL = {
-    "ss": {"S1": S1, "S2": S2, "S3": S3, "S4": S4, "S5": S5, "S6": S6, "SE": SE, "SU": SU, "SM": SM, "SX": SX, "SV": SV},
+    "ss": {"S1": S1, "S2": S2, "S3": S3, "S4": S4, "S5": S5, "S6": S6, "SD1": SD1, "SD2": SD2, "SE": SE, "SU": SU, "SM": SM, "SX": SX, "SV": SV},
     "src": {"D1": D1, "D2": D2, "DX": DX},
     "vals": {"str": {"form": "expr", "text": "'stop'"},
              "num": {"form": "num", "num": 2},
